@@ -296,4 +296,29 @@ example : exOracle.WF ∧ (∀ s, (exOracle.view s).shrinks < 2 ^ 62) := by
   · intro _ _ _ _; rfl
   · intro s; cases s; decide
 
+/-- `shrinker.accept` re-read from /repo statement by statement: the model's `accept` (`SS.accept`) was written against exactly this text — a candidate that is not strictly smaller than the current test case is refused before anything runs; the cache only remembers candidates whose first run had another traceback; the first run decides (traceback), the second run records, is pruned, must not be larger than the candidate, and must give the same error (else `panic(err2)`); only then `shrinks++` -/
+theorem accept_body_source : Rapid.Generated.body_shrinker_accept =
+    ["{", "if compareData(buf, s.rec.data) >= 0 {", "return false", "}", "bufStr := dataStr(buf)",
+     "if _, ok := s.cache[bufStr]; ok {", "s.hits++", "return false", "}",
+     "s.debugf(true, label+\": trying to reproduce the failure with a smaller test case: \"+format, args...)",
+     "s.tries[label]++", "s1 := newBufBitStream(buf, false)",
+     "err1 := checkOnce(newT(s.tb, s1, flags.debug && flags.verbose, nil), s.prop)",
+     "if traceback(err1) != traceback(s.err) {", "s.cache[bufStr] = struct{}{}", "return false", "}",
+     "s.debugf(true, label+\": trying to reproduce the failure\")", "s.tries[label]++", "s.err = err1",
+     "s2 := newBufBitStream(buf, true)",
+     "err2 := checkOnce(newT(s.tb, s2, flags.debug && flags.verbose, nil), s.prop)", "s.rec = s2.recordedBits",
+     "s.rec.prune()", "assert(compareData(s.rec.data, buf) <= 0)", "if flags.debugvis {",
+     "s.visBits = append(s.visBits, s.rec)", "}", "if !sameError(err1, err2) {", "panic(err2)", "}",
+     "s.debugf(false, label+\" success: \"+format, args...)", "s.shrinks++", "return true", "}"] := by rfl
+
+/-- `shrink` re-read from /repo statement by statement: the recording is pruned first, the shrinker starts from it and from the error of the reproduce run (`doCheck` hands both over: `source_doCheck`) -/
+theorem shrink_entry_source : Rapid.Generated.body_shrink =
+    ["{", "rec.prune()", "s := &shrinker{", "tb:\t\ttb,", "rec:\t\trec,", "err:\t\terr,", "prop:\t\tprop,",
+     "visBits:\t[]recordedBits{rec},", "tries:\t\tmap[string]int{},", "cache:\t\tmap[string]struct{}{},", "}",
+     "buf, err := s.shrink(deadline)", "if flags.debugvis {",
+     "name := fmt.Sprintf(\"vis-%v.html\", strings.Replace(tb.Name(), \"/\", \"_\", -1))",
+     "f, err := os.Create(name)", "if err != nil {", "tb.Logf(\"failed to create debugvis file %v: %v\", name, err)",
+     "} else {", "defer func() { _ = f.Close() }()", "if err = visWriteHTML(f, tb.Name(), s.visBits); err != nil {",
+     "tb.Logf(\"failed to write debugvis file %v: %v\", name, err)", "}", "}", "}", "return buf, err", "}"] := by rfl
+
 end Rapid.C05
